@@ -660,6 +660,21 @@ fn new_fixed<'b, E: Elem, B: BumpAllocatorTypedScope<'b>>(ctx: &mut Ctx, bump: &
     let try_ = !ctx.panicking_ok(op) || op.a[3] & 1 == 1;
     let xs = fresh_vals(ctx, n);
     match op.a[0] % 3 {
+        0 if (op.a[0] / 3) % 2 == 1 => {
+            // `from_uninit`: an uninitialised slice becomes the (empty) vector's whole capacity
+            let r = ctx.call(op, false, || {
+                let u = if try_ { bump.try_alloc_uninit_slice::<E>(cap).map_err(drop)? } else { bump.alloc_uninit_slice::<E>(cap) };
+                Ok(FixedBumpVec::from_uninit(u))
+            });
+            let r = finish_new(ctx, r, Vec::new(), Promise::default()).map(|(v, m, _)| (v, m));
+            if let Some((v, _)) = &r {
+                ctx.stats.probe("fixed.from_uninit");
+                if ctx.on.c08 && !E::ZST && (v.capacity() != cap || v.len() != 0) {
+                    ctx.viol("C08/from-uninit-capacity", format!("FixedBumpVec::from_uninit of {cap} slots: len {} capacity {}", v.len(), v.capacity()));
+                }
+            }
+            r
+        }
         0 => {
             let r = ctx.call(op, false, || if try_ { FixedBumpVec::try_with_capacity_in(cap, bump).map_err(drop) } else { Ok(FixedBumpVec::with_capacity_in(cap, bump)) });
             finish_new(ctx, r, Vec::new(), Promise::default()).map(|(v, m, _)| (v, m))
@@ -974,11 +989,82 @@ fn new_box<'b, E: Elem, B: BumpAllocatorTypedScope<'b>>(ctx: &mut Ctx, bump: &B,
     }
     let try_ = !ctx.panicking_ok(op) || op.a[2] & 1 == 1;
     let xs = fresh_vals(ctx, n);
-    let how = op.a[0] % 6;
+    // (decoding keeps the meaning of the replay files written before the `init_*` forms existed)
+    let how = if (op.a[0] / 6) % 3 == 2 { 6 + (op.a[0] / 18) % 5 } else { op.a[0] % 6 };
     let r = match how {
         0 => {
             let it = Scripted::<E>::new(xs.clone(), Hint::from(op.a[3]));
             ctx.call(op, false, || if try_ { bump.try_alloc_iter(it).map_err(drop) } else { Ok(bump.alloc_iter(it)) })
+        }
+        6..=10 => {
+            // `alloc_uninit_slice` + one of the slice initialisers (src/bump_box/slice_initializer.rs, C06): a panicking
+            // `Clone` / closure / iterator in the middle must drop exactly the elements made so far
+            ctx.stats.probe("box.uninit_init");
+            // length of the uninitialised slice relative to the number of source items
+            let m = match (op.a[3] / 7) % 8 {
+                0 if n > 0 => n - 1,
+                1 => n + 1,
+                _ => n,
+            };
+            macro_rules! uninit {
+                () => {
+                    if try_ {
+                        match bump.try_alloc_uninit_slice::<E>(m) {
+                            Ok(u) => u,
+                            Err(_) => return Err(()),
+                        }
+                    } else {
+                        bump.alloc_uninit_slice::<E>(m)
+                    }
+                };
+            }
+            let (r, model, expect_panic): (Outcome<BumpBox<'b, [E]>>, Vec<u32>, bool) = match how {
+                6 => {
+                    let x = ctx.fresh_val();
+                    let e = E::new(x);
+                    (ctx.call(op, false, || Ok(uninit!().init_fill(e))), vec![x; m], false)
+                }
+                7 => {
+                    let mut i = 0;
+                    let xs2: Vec<u32> = (0..m).map(|k| xs.get(k).copied().unwrap_or(if E::ZST { 0 } else { 1 })).collect();
+                    let xs3 = xs2.clone();
+                    let f = move || {
+                        elem::tick();
+                        i += 1;
+                        E::new(xs3[i - 1])
+                    };
+                    (ctx.call(op, false, || Ok(uninit!().init_fill_with(f))), xs2, false)
+                }
+                8 => {
+                    let it = Scripted::<E>::new(xs.clone(), Hint::from(op.a[3]));
+                    // too few items: documented panic ("iterator ran out of items"); too many: the rest stays in the iterator
+                    (ctx.call(op, false, || Ok(uninit!().init_fill_iter(it))), xs[..m.min(n)].to_vec(), m > n)
+                }
+                9 => {
+                    let src: Vec<E> = xs.iter().map(|&x| E::new(x)).collect();
+                    let r = ctx.call(op, false, || Ok(uninit!().init_clone(&src)));
+                    drop(src);
+                    (r, xs.clone(), m != n)
+                }
+                _ => {
+                    let src: Vec<E> = xs.iter().map(|&x| E::new(x)).collect();
+                    (ctx.call(op, false, || Ok(uninit!().init_move(src))), xs.clone(), m != n)
+                }
+            };
+            if expect_panic {
+                ctx.drain_errors();
+                match r {
+                    Outcome::LibPanic(_) => ctx.stats.probe("box.uninit_init.length_mismatch_panicked"),
+                    Outcome::Ok(_) => {
+                        if ctx.on.c08 || ctx.on.c06 {
+                            ctx.viol(if ctx.on.c08 { "C08/panic-mismatch" } else { "C06/initialiser-accepted-wrong-length" }, format!("slice initialiser {how} filled {m} slots from {n} items without panicking"));
+                        }
+                    }
+                    _ => {}
+                }
+                return None;
+            }
+            return finish_new(ctx, r, model, Promise::default()).map(|(v, m, _)| (v, m));
         }
         1 => {
             let hint = Hint::from(op.a[3]);
